@@ -271,6 +271,7 @@ func H_C10_gap() {
 // 3: Stop(), no answer, deadline fires -> context cancelled
 // 5: local Logout(), a whole silent period (probe), then the peer's answer -> no second Logout, logout event once
 // 4: Stop() whose Logout is refused by an application outgoing handler, deadline fires -> context cancelled
+// 6/7: local Logout(), then Stop() before the peer answered -> cancelled by the answer (6) / at the deadline (7)
 func H_C15_logout() {
 	role, sc := zz.Param(0), zz.Param(1)
 	if sc == 5 {
@@ -368,6 +369,29 @@ func H_C15_logout() {
 			zz.AfterFuncFire(n0)
 		}
 		zz.Assert(cancelled(), "C15: the session context is not cancelled when the close timeout elapses after a Logout that could not be sent")
+	case 6, 7:
+		// local Logout(), then Stop() while the peer's answer is still outstanding: the session ends
+		// on the peer's answer (6) or, without one, when the close timeout elapses (7)
+		zz.Assert(f.s.Logout() == nil, "C15: Logout() failed")
+		_ = f.h.VerifOut()
+		n0 := zz.AfterFuncs()
+		_ = f.s.Stop()
+		_ = f.h.VerifOut()
+		zz.Reach("stopped")
+		if sc == 6 {
+			_ = f.serve(peerLogout(2))
+			zz.Reach("served")
+			zz.Assert(cancelled(), "C15: Stop() after a local Logout(): the session context is not cancelled when the peer's Logout answer arrives")
+		} else {
+			if !cancelled() {
+				zz.Assert(zz.AfterFuncs() >= n0+1, "C15: Stop() after a local Logout() neither cancels nor arms the close-timeout timer")
+				for k := n0; k < zz.AfterFuncs(); k++ {
+					zz.AfterFuncFire(k)
+				}
+			}
+			zz.Reach("fired")
+			zz.Assert(cancelled(), "C15: Stop() after a local Logout(): the session context is not cancelled when the close timeout elapses")
+		}
 	case 2, 3:
 		n0 := zz.AfterFuncs()
 		zz.Assert(f.s.Stop() == nil, "C15: Stop() failed")
